@@ -28,6 +28,23 @@
 //!     coordinator) rewrites the file, the records it dropped were acknowledged and stay part of
 //!     what the durable prefix obliges.
 //!   * recovery itself succeeds, at any byte, also after appending to a log that had a torn tail.
+//!   * "collected all votes" is judged by the votes, not by what the log claims: a transaction is
+//!     past vote collection only if the coordinator had accepted a vote of *every participant*
+//!     (votes of shards outside the participant list are sent too and do not stand in for one). One
+//!     whose log says Prepared while a participant's vote is outstanding was still collecting votes
+//!     and must be forgotten (`collecting-tx-reappeared:as-<phase>-without-a-vote-of-every-participant`).
+//!   * a completion counts from the moment the coordinator announced it: `commit()`/`abort()`
+//!     returned Ok, or `cleanup_timeouts()` returned the transaction (its ABORT broadcast is queued).
+//!     The harness notes the length of the log at that moment; for every crash at that byte or later
+//!     (images and chain restarts) the transaction is a completed one, whether or not the code wrote
+//!     a completion record — in particular when the in-memory phase the decision started from was
+//!     never logged (`recover()` turns Prepared into Aborting/Committing in memory only). Signatures
+//!     of an announced outcome that is missing in the log end in `:announced-by-<call>-but-not-in-the-log`.
+//!     `complete_commit`/`complete_abort` (finish a decision `recover()` took; the code logs neither)
+//!     create no obligation, as before.
+//!   * restored transactions get a fresh 5 s deadline that cannot be configured; in a few chain
+//!     restarts the harness waits it out, so that the sweeper really times restored transactions out
+//!     (with and without a preceding `recover()`), and the next crash must keep them aborted.
 
 use common::*;
 use serde_json::{json, Value};
@@ -43,6 +60,14 @@ use tensor_chain::tx_wal::{PrepareVoteKind, TxOutcome, TxWal, TxWalEntry};
 use tensor_store::SparseVector;
 
 const DIM: usize = 4;
+const FLOOR_UNLOGGED_PHASE: u64 = 8;
+/// `--judge-complete-calls 1`: also take `complete_commit()`/`complete_abort()` returning Ok as an
+/// announced completion. Off by default: they finish a decision `recover()` took in memory, the
+/// code logs neither, and the statement speaks of completions that were logged (see `witness`).
+static JUDGE_COMPLETE_CALLS: std::sync::atomic::AtomicBool = std::sync::atomic::AtomicBool::new(false);
+fn judge_complete_calls() -> bool {
+    JUDGE_COMPLETE_CALLS.load(std::sync::atomic::Ordering::Relaxed)
+}
 
 // ------------------------------------------------------------------------------------------------
 // independent decoding of the log
@@ -138,6 +163,19 @@ struct TxLog {
     outcome: Option<TxOutcome>,
     released: std::collections::BTreeSet<u64>,
     all_released: bool,
+    /// an outcome the live coordinator announced before the crash point (commit()/abort() returned
+    /// Ok, cleanup_timeouts() returned the transaction), with the call that announced it
+    acked: Option<(TxOutcome, &'static str)>,
+}
+
+/// An outcome the running coordinator announced: `len` is the length of the log file when the
+/// announcing call had returned, so the announcement precedes every crash at a byte >= len.
+#[derive(Clone, Debug)]
+struct Ack {
+    tx: u64,
+    outcome: TxOutcome,
+    how: &'static str,
+    len: usize,
 }
 
 #[derive(Clone, Copy, Debug, PartialEq, Eq)]
@@ -166,10 +204,48 @@ impl TxLog {
             })
             .collect()
     }
+    /// the outcome this transaction was completed with before the crash: the one in the durable
+    /// prefix, else the one the live coordinator announced before the crash point
+    fn done(&self) -> Option<TxOutcome> {
+        self.outcome.or(self.acked.map(|a| a.0))
+    }
+    /// the announcing call, if the announced outcome is *not* in the durable prefix
+    fn ack_only(&self) -> Option<&'static str> {
+        if self.outcome.is_none() {
+            self.acked.map(|a| a.1)
+        } else {
+            None
+        }
+    }
+    /// signature suffix / wording that keeps "announced but not in the log" apart from "logged"
+    fn sfx(&self) -> String {
+        match self.ack_only() {
+            Some(how) => format!(":announced-by-{}-but-not-in-the-log", how),
+            None => String::new(),
+        }
+    }
+    fn was(&self) -> String {
+        match (self.ack_only(), self.done()) {
+            (Some(how), Some(o)) => format!("was completed as {:?} ({} announced it before the crash point; the durable log holds no completion record for it)", o, how),
+            (None, Some(o)) => format!("was logged {:?}", o),
+            _ => "has no outcome".to_string(),
+        }
+    }
+    /// every participant has cast a vote that the coordinator accepted
+    fn all_participants_voted(&self) -> bool {
+        self.participants.iter().all(|p| self.accepted.contains_key(p))
+    }
+    /// the log says the vote collection is over although a participant's vote is outstanding
+    fn premature(&self) -> bool {
+        self.done().is_none()
+            && !self.all_participants_voted()
+            && (matches!(self.phase, TxPhase::Prepared | TxPhase::Committing) || (self.phase == TxPhase::Aborting && self.was_prepared))
+    }
     fn class(&self) -> Class {
-        match self.outcome {
+        match self.done() {
             Some(TxOutcome::Committed) => Class::Committed,
             Some(_) => Class::Aborted,
+            None if self.premature() => Class::Collecting,
             None => match self.phase {
                 TxPhase::Prepared => Class::Prepared,
                 TxPhase::Committing => Class::Committing,
@@ -195,7 +271,7 @@ const REMOVED_BASE: usize = usize::MAX / 2;
 
 /// `removed`: acknowledged records that are no longer in the file because the code rewrote its
 /// log while running; they stay part of what the coordinator has promised.
-fn build_model(removed: &[Rec], recs: &[Rec], vote_accept: &HashMap<usize, bool>) -> Option<Model> {
+fn build_model(removed: &[Rec], recs: &[Rec], vote_accept: &HashMap<usize, bool>, acks: &[Ack], b: usize) -> Option<Model> {
     let mut m: Model = BTreeMap::new();
     for r in removed.iter().chain(recs.iter()) {
         match &r.entry {
@@ -211,6 +287,7 @@ fn build_model(removed: &[Rec], recs: &[Rec], vote_accept: &HashMap<usize, bool>
                         outcome: None,
                         released: Default::default(),
                         all_released: false,
+                        acked: None,
                     },
                 );
             }
@@ -252,6 +329,14 @@ fn build_model(removed: &[Rec], recs: &[Rec], vote_accept: &HashMap<usize, bool>
                 }
             }
             _ => {}
+        }
+    }
+    // outcomes announced before the crash point (first announcement wins, like the first record)
+    for a in acks.iter().filter(|a| a.len <= b) {
+        if let Some(t) = m.get_mut(&a.tx) {
+            if t.acked.is_none() {
+                t.acked = Some((a.outcome, a.how));
+            }
         }
     }
     Some(m)
@@ -383,6 +468,8 @@ fn recovery_script(
     rng: &mut Rng,
     out: &mut Vec<Found>,
     rep: &mut Report,
+    late_sweep: bool,
+    acks_out: &mut Vec<(u64, TxOutcome, &'static str)>,
 ) -> bool {
     let stats = match coord.recover_from_wal() {
         Ok(s) => s,
@@ -438,10 +525,22 @@ fn recovery_script(
         match t.class() {
             Class::Committed | Class::Aborted => {
                 rep.count("checked:completed", 1);
+                if let Some((_, how)) = t.acked {
+                    // the live coordinator announced this outcome before the crash point
+                    rep.count("checked:announced-outcome-after-crash", 1);
+                    rep.count(&format!("checked:announced-outcome-after-crash:{}", how), 1);
+                    if t.was_prepared {
+                        rep.count("checked:announced-outcome-of-tx-logged-Prepared", 1);
+                    }
+                }
                 if let Some((ph, _)) = got {
                     out.push(Found {
-                        sig: format!("completed-tx-pending-again:{:?}-as-{:?}", t.outcome.unwrap(), ph),
-                        detail: format!("{} was logged {:?} but is among the pending transactions in phase {:?} after restart (the timeout sweeper will abort it)", n, t.outcome.unwrap(), ph),
+                        sig: format!("completed-tx-pending-again:{:?}-as-{:?}{}", t.done().unwrap(), ph, t.sfx()),
+                        detail: format!(
+                            "{} {} but is among the pending transactions in phase {:?} after restart ({})",
+                            n, t.was(), ph,
+                            if t.done() == Some(TxOutcome::Committed) { "the timeout sweeper will abort it" } else { "recover() / commit() can commit it" }
+                        ),
                     });
                 }
                 if coord.lock_manager().lock_count_for_transaction(tx) != 0 {
@@ -491,11 +590,32 @@ fn recovery_script(
             }
             Class::Collecting => {
                 rep.count("checked:collecting", 1);
-                if let Some((ph, _)) = got {
-                    out.push(Found {
-                        sig: "collecting-tx-reappeared".into(),
-                        detail: format!("{} was still collecting votes at the crash but is pending again in phase {:?}", n, ph),
-                    });
+                // votes of shards outside the participant list do not stand in for a participant's
+                if t.accepted.keys().any(|s| !t.participants.contains(s)) {
+                    rep.count("checked:collecting-with-accepted-non-participant-vote", 1);
+                    if t.accepted.len() >= t.participants.len() {
+                        rep.count("checked:collecting-with-as-many-votes-as-participants", 1);
+                        if t.accepted.values().all(|v| matches!(v, PrepareVoteKind::Yes { .. })) {
+                            rep.count("checked:collecting-with-as-many-yes-votes-as-participants", 1);
+                        }
+                    }
+                }
+                if let Some((ph, votes)) = got {
+                    if t.premature() {
+                        let missing: Vec<usize> = t.participants.iter().copied().filter(|p| !t.accepted.contains_key(p)).collect();
+                        out.push(Found {
+                            sig: format!("collecting-tx-reappeared:as-{:?}-without-a-vote-of-every-participant", ph),
+                            detail: format!(
+                                "{} (participants {:?}) was still collecting votes at the crash: the coordinator had accepted votes of shards {:?}, participant(s) {:?} had not voted; after restart it is pending in phase {:?} with votes of {:?} (the log says its vote collection is over)",
+                                n, t.participants, t.accepted.keys().collect::<Vec<_>>(), missing, ph, votes.keys().collect::<Vec<_>>()
+                            ),
+                        });
+                    } else {
+                        out.push(Found {
+                            sig: "collecting-tx-reappeared".into(),
+                            detail: format!("{} was still collecting votes at the crash but is pending again in phase {:?}", n, ph),
+                        });
+                    }
                 }
             }
             Class::AbortingEarly => {}
@@ -525,13 +645,25 @@ fn recovery_script(
     }
     let decisions: HashMap<u64, TxPhase> = coord.get_pending_decisions().into_iter().collect();
     for (&tx, t) in model {
-        if matches!(t.class(), Class::Collecting) && decisions.contains_key(&tx) {
+        if matches!(t.class(), Class::Collecting) && decisions.contains_key(&tx) && !t.premature() {
             out.push(Found { sig: "collecting-tx-reappeared".into(), detail: format!("{} listed by get_pending_decisions", names.n(tx)) });
+        }
+        // the decision handed out for broadcast is the opposite of the completed outcome
+        match (t.done(), decisions.get(&tx)) {
+            (Some(TxOutcome::Committed), Some(TxPhase::Aborting)) => out.push(Found {
+                sig: format!("logged-commit-reversed:abort-handed-out{}", t.sfx()),
+                detail: format!("{} {}; get_pending_decisions() after restart hands out ABORT for it", names.n(tx), t.was()),
+            }),
+            (Some(TxOutcome::Aborted), Some(TxPhase::Committing)) => out.push(Found {
+                sig: format!("logged-abort-reversed:commit-handed-out{}", t.sfx()),
+                detail: format!("{} {}; get_pending_decisions() after restart hands out COMMIT for it", names.n(tx), t.was()),
+            }),
+            _ => {}
         }
     }
 
     // ---- hostile calls against logged outcomes, completion of unfinished transactions
-    let mut done_now: Vec<(u64, TxOutcome)> = Vec::new(); // completions logged by this coordinator
+    let mut done_now: Vec<(u64, TxOutcome, &'static str)> = Vec::new(); // completions announced by this coordinator
     let mut order: Vec<u64> = model.keys().copied().collect();
     rng.shuffle(&mut order);
     for tx in order {
@@ -543,13 +675,13 @@ fn recovery_script(
                 if which == 0 || which == 2 {
                     rep.count("hostile:abort-after-logged-commit", 1);
                     if coord.abort(tx, "late abort").is_ok() {
-                        out.push(Found { sig: "logged-commit-reversed:abort-accepted".into(), detail: format!("{} was logged Committed; abort() after restart succeeded", n) });
+                        out.push(Found { sig: format!("logged-commit-reversed:abort-accepted{}", t.sfx()), detail: format!("{} {}; abort() after restart succeeded", n, t.was()) });
                     }
                 }
                 if which >= 1 {
                     rep.count("hostile:complete_abort-after-logged-commit", 1);
                     if coord.complete_abort(tx).is_ok() {
-                        out.push(Found { sig: "logged-commit-reversed:complete_abort-accepted".into(), detail: format!("{} was logged Committed; complete_abort() after restart succeeded", n) });
+                        out.push(Found { sig: format!("logged-commit-reversed:complete_abort-accepted{}", t.sfx()), detail: format!("{} {}; complete_abort() after restart succeeded", n, t.was()) });
                     }
                 }
             }
@@ -558,13 +690,13 @@ fn recovery_script(
                 if which == 0 || which == 2 {
                     rep.count("hostile:commit-after-logged-abort", 1);
                     if coord.commit(tx).is_ok() {
-                        out.push(Found { sig: "logged-abort-reversed:commit-accepted".into(), detail: format!("{} was logged Aborted; commit() after restart succeeded", n) });
+                        out.push(Found { sig: format!("logged-abort-reversed:commit-accepted{}", t.sfx()), detail: format!("{} {}; commit() after restart succeeded", n, t.was()) });
                     }
                 }
                 if which >= 1 {
                     rep.count("hostile:complete_commit-after-logged-abort", 1);
                     if coord.complete_commit(tx).is_ok() {
-                        out.push(Found { sig: "logged-abort-reversed:complete_commit-accepted".into(), detail: format!("{} was logged Aborted; complete_commit() after restart succeeded", n) });
+                        out.push(Found { sig: format!("logged-abort-reversed:complete_commit-accepted{}", t.sfx()), detail: format!("{} {}; complete_commit() after restart succeeded", n, t.was()) });
                     }
                 }
             }
@@ -584,18 +716,30 @@ fn recovery_script(
                         // a prepared transaction without outcome may legitimately be aborted too
                         if rng.below(4) == 0 {
                             if coord.abort(tx, "client abort after restart").is_ok() {
-                                done_now.push((tx, TxOutcome::Aborted));
+                                done_now.push((tx, TxOutcome::Aborted, "abort()"));
                             }
                             continue;
                         }
                         let r = coord.commit(tx).map_err(|e| format!("commit: {}", e));
                         if r.is_ok() {
-                            done_now.push((tx, TxOutcome::Committed));
+                            done_now.push((tx, TxOutcome::Committed, "commit()"));
                         }
                         r
                     }
-                    TxPhase::Committing => coord.complete_commit(tx).map_err(|e| format!("complete_commit: {}", e)),
-                    TxPhase::Aborting => coord.complete_abort(tx).map_err(|e| format!("complete_abort: {}", e)),
+                    TxPhase::Committing => {
+                        let r = coord.complete_commit(tx).map_err(|e| format!("complete_commit: {}", e));
+                        if r.is_ok() && judge_complete_calls() {
+                            done_now.push((tx, TxOutcome::Committed, "complete_commit()"));
+                        }
+                        r
+                    }
+                    TxPhase::Aborting => {
+                        let r = coord.complete_abort(tx).map_err(|e| format!("complete_abort: {}", e));
+                        if r.is_ok() && judge_complete_calls() {
+                            done_now.push((tx, TxOutcome::Aborted, "complete_abort()"));
+                        }
+                        r
+                    }
                     other => Err(format!("unexpected phase {:?}", other)),
                 };
                 rep.count("driven_to_completion", 1);
@@ -612,29 +756,54 @@ fn recovery_script(
         }
     }
 
-    // ---- the sweeper and the abort broadcast queue must leave logged outcomes alone
+    // ---- the sweeper and the abort broadcast queue must leave completed outcomes alone
+    let judge_sweep = |swept: &[u64], queued: &[(u64, String, Vec<usize>)], out: &mut Vec<Found>, done_now: &mut Vec<(u64, TxOutcome, &'static str)>| {
+        for (&tx, t) in model {
+            match t.class() {
+                Class::Committed | Class::Aborted => {
+                    if swept.contains(&tx) {
+                        out.push(Found {
+                            sig: format!("logged-outcome-reversed:timed-out-after-{:?}{}", t.done().unwrap(), t.sfx()),
+                            detail: format!("{} {}; cleanup_timeouts() after restart returned it", names.n(tx), t.was()),
+                        });
+                    }
+                    if t.class() == Class::Committed && queued.iter().any(|(id, _, _)| *id == tx) {
+                        out.push(Found { sig: format!("logged-commit-reversed:abort-broadcast-queued{}", t.sfx()), detail: format!("{} {}; an abort broadcast is queued after restart", names.n(tx), t.was()) });
+                    }
+                }
+                _ => {
+                    // a timeout the sweeper reports is an abort it announces (the broadcast is queued)
+                    if swept.contains(&tx) && !done_now.iter().any(|(d, _, _)| *d == tx) {
+                        done_now.push((tx, TxOutcome::Aborted, "cleanup_timeouts()"));
+                    }
+                }
+            }
+        }
+    };
     let swept = coord.cleanup_timeouts();
     let queued = coord.take_pending_aborts();
     rep.count("sweeps_after_restart", 1);
-    for (&tx, t) in model {
-        match t.class() {
-            Class::Committed | Class::Aborted => {
-                if swept.contains(&tx) {
-                    out.push(Found {
-                        sig: format!("logged-outcome-reversed:timed-out-after-{:?}", t.outcome.unwrap()),
-                        detail: format!("{} was logged {:?}; cleanup_timeouts() after restart returned it", names.n(tx), t.outcome.unwrap()),
-                    });
-                }
-                if t.class() == Class::Committed && queued.iter().any(|(id, _, _)| *id == tx) {
-                    out.push(Found { sig: "logged-commit-reversed:abort-broadcast-queued".into(), detail: format!("{} was logged Committed; an abort broadcast is queued after restart", names.n(tx)) });
-                }
-            }
-            _ => {}
+    judge_sweep(&swept, &queued, out, &mut done_now);
+
+    // ---- restored transactions get a fresh deadline (5 s, not configurable): in a few restarts
+    // the harness lets it pass, so that the sweeper really times restored transactions out —
+    // sometimes after recover(), which first turns them into Aborting in memory only
+    if late_sweep && model.keys().any(|tx| coord.get(*tx).is_some()) {
+        std::thread::sleep(Duration::from_millis(5100));
+        let pending_before: Vec<u64> = model.keys().copied().filter(|tx| coord.get(*tx).is_some()).collect();
+        if rng.bool() {
+            let _ = coord.recover();
+            rep.count("late_sweeps_after_recover()", 1);
         }
+        let swept = coord.cleanup_timeouts();
+        let queued = coord.take_pending_aborts();
+        rep.count("late_sweeps_after_restart", 1);
+        rep.count("restored_tx_timed_out_after_restart", swept.iter().filter(|t| pending_before.contains(t)).count() as u64);
+        judge_sweep(&swept, &queued, out, &mut done_now);
     }
 
-    // ---- a later recovery call on the same coordinator: every completion that is in the log by
-    // now (before the crash, or logged by commit()/abort() since the restart) stays final
+    // ---- a later recovery call on the same coordinator: every completion that was announced by
+    // now (before the crash, or by commit()/abort()/the sweeper since the restart) stays final
     if rng.below(3) != 0 {
         if let Err(e) = coord.recover_from_wal() {
             out.push(Found { sig: "recovery-error".into(), detail: format!("later recover_from_wal failed: {}", e) });
@@ -644,20 +813,24 @@ fn recovery_script(
             let _ = coord.recover();
         }
         rep.count("later_recovery_calls", 1);
-        let mut logged: Vec<(u64, TxOutcome, &str)> = done_now.iter().map(|(t, o)| (*t, *o, "after the restart")).collect();
+        // (tx, outcome, wording, signature suffix)
+        let mut logged: Vec<(u64, TxOutcome, String, String)> = done_now
+            .iter()
+            .map(|(t, o, how)| (*t, *o, format!("was completed as {:?} after the restart ({} returned it)", o, how), if *how == "cleanup_timeouts()" { ":timed-out-since-the-restart".to_string() } else if how.starts_with("complete_") { format!(":announced-by-{}-but-not-in-the-log", how) } else { String::new() }))
+            .collect();
         for (&tx, t) in model {
-            if let Some(o) = t.outcome {
-                logged.push((tx, o, "before the crash"));
+            if let Some(o) = t.done() {
+                logged.push((tx, o, format!("{} (before the crash)", t.was()), t.sfx()));
             }
         }
         rep.count("checked:completed-across-later-recovery-call", logged.len() as u64);
         rep.count("checked:completed-after-restart-across-later-recovery-call", done_now.len() as u64);
-        for (tx, o, when) in logged {
+        for (tx, o, when, sfx) in logged {
             let n = names.n(tx);
             if let Some(cur) = coord.get(tx) {
                 out.push(Found {
-                    sig: format!("completed-tx-pending-again:{:?}-as-{:?}:after-later-recovery-call", o, cur.phase),
-                    detail: format!("{} was logged {:?} {}; after a later recover_from_wal() on the same coordinator it is pending again in phase {:?}", n, o, when, cur.phase),
+                    sig: format!("completed-tx-pending-again:{:?}-as-{:?}:after-later-recovery-call{}", o, cur.phase, sfx),
+                    detail: format!("{} {}; after a later recover_from_wal() on the same coordinator it is pending again in phase {:?}", n, when, cur.phase),
                 });
             }
             let reversed = match o {
@@ -665,17 +838,18 @@ fn recovery_script(
                 _ => coord.commit(tx).is_ok().then_some("logged-abort-reversed:commit-accepted"),
             };
             if let Some(sig) = reversed {
-                out.push(Found { sig: sig.into(), detail: format!("{} was logged {:?} {}; after a later recover_from_wal() the opposite decision was accepted", n, o, when) });
+                out.push(Found { sig: format!("{}{}", sig, sfx), detail: format!("{} {}; after a later recover_from_wal() the opposite decision was accepted", n, when) });
             }
         }
         let swept = coord.cleanup_timeouts();
         let _ = coord.take_pending_aborts();
-        for (tx, o) in &done_now {
+        for (tx, o, how) in &done_now {
             if swept.contains(tx) {
-                out.push(Found { sig: format!("logged-outcome-reversed:timed-out-after-{:?}", o), detail: format!("{} was logged {:?} after the restart; cleanup_timeouts() returned it after a later recovery call", names.n(*tx), o) });
+                out.push(Found { sig: format!("logged-outcome-reversed:timed-out-after-{:?}", o), detail: format!("{} was completed as {:?} after the restart ({}); cleanup_timeouts() returned it after a later recovery call", names.n(*tx), o, how) });
             }
         }
     }
+    acks_out.extend(done_now);
     true
 }
 
@@ -689,7 +863,7 @@ fn eval_copy(img: &Path, prefix: &[u8], model: &Model, recs: &[Rec], removed_tx:
     match TxWal::open(img) {
         Ok(w) => {
             let c = new_coordinator(w);
-            recovery_script(&c, model, names, recs, removed_tx, &mut srng, &mut found, rep);
+            recovery_script(&c, model, names, recs, removed_tx, &mut srng, &mut found, rep, false, &mut Vec::new());
         }
         Err(e) => found.push(Found { sig: "wal-open-failed".into(), detail: format!("TxWal::open failed: {}", e) }),
     }
@@ -699,9 +873,9 @@ fn eval_copy(img: &Path, prefix: &[u8], model: &Model, recs: &[Rec], removed_tx:
 /// On a log with an unrepaired torn record the reader cannot see what was appended behind it. To
 /// tell that defect from anything else, the same restart is judged a second time against the model
 /// of the log *cut at the torn record*: signatures that arise there too are independent of it.
-fn independent_sigs(img: &Path, prefix: &[u8], seg_starts: &[usize], vote_accept: &HashMap<usize, bool>, names: &Names, seed: u64) -> Vec<String> {
+fn independent_sigs(img: &Path, prefix: &[u8], seg_starts: &[usize], vote_accept: &HashMap<usize, bool>, acks: &[Ack], names: &Names, seed: u64) -> Vec<String> {
     let (recs, _) = logical_log_opt(prefix, prefix.len(), seg_starts, true);
-    let Some(model) = build_model(&[], &recs, vote_accept) else { return Vec::new() };
+    let Some(model) = build_model(&[], &recs, vote_accept, acks, prefix.len()) else { return Vec::new() };
     let mut scratch = Report::new();
     eval_copy(img, prefix, &model, &recs, &Default::default(), names, seed, &mut scratch).unwrap_or_default().into_iter().map(|f| f.sig).collect()
 }
@@ -742,6 +916,8 @@ struct Chain {
     last_bytes: Vec<u8>,
     cur_seg: Option<usize>,
     rewritten_this_epoch: bool,
+    /// outcomes the coordinators of this chain announced, with the file length at that moment
+    acks: Vec<Ack>,
 }
 
 impl Chain {
@@ -776,6 +952,11 @@ impl Chain {
                 self.removed.push(Rec { start: key, end: key, entry: r.entry });
             }
             self.vote_accept.retain(|&k, _| k >= REMOVED_BASE);
+            // offsets of the old file mean nothing in the new one: what was announced before the
+            // rewrite precedes every byte of it
+            for a in self.acks.iter_mut() {
+                a.len = 0;
+            }
             self.seg_starts = vec![0];
             self.cur_seg = Some(0);
             self.rewritten_this_epoch = true;
@@ -820,17 +1001,26 @@ fn gen_vote(coord: &DistributedTxCoordinator, tx: u64, shard: usize, rng: &mut R
 }
 
 /// seeded live workload on the coordinator of this epoch
-fn workload(coord: &DistributedTxCoordinator, ch: &mut Chain, rng: &mut Rng, epoch: usize, known: &Model, out: &mut Vec<Found>, rep: &mut Report) {
+fn workload(coord: &DistributedTxCoordinator, ch: &mut Chain, rng: &mut Rng, extra_seed: u64, epoch: usize, known: &Model, out: &mut Vec<Found>, rep: &mut Report) {
+    // decisions added later draw from their own stream, so that a case seed keeps its older meaning
+    let mut xr = Rng::new(extra_seed);
     let steps = if epoch == 0 { 8 + rng.below(30) } else { 3 + rng.below(20) };
     let max_new = if epoch == 0 { 1 + rng.below(4) } else { rng.below(3) };
     let mut begun = 0usize;
     // completions this coordinator logged itself (commit()/abort() returned Ok: TxComplete is on disk)
-    let mut live_done: HashMap<u64, TxOutcome> = HashMap::new();
+    let mut live_done: HashMap<u64, (TxOutcome, &'static str)> = HashMap::new();
+    // transactions this coordinator moved to Prepared (that phase change is in the log)
+    let mut prepared_live: std::collections::HashSet<u64> = Default::default();
+    // `known` = what the restart of this epoch was obliged to; its completed transactions
+    let known_done = |tx: u64| known.get(&tx).and_then(|t| t.done().map(|o| (o, t.was(), t.sfx())));
     let transport = h_chain::CaptureTransport::new("coord", &[]);
+    // an operation that has to follow the previous one directly (replaces the drawn one)
+    let mut force: Option<usize> = None;
     for _ in 0..steps {
         let w_begin = if begun < max_new { 5 } else { 0 };
         let have = !ch.txs.is_empty();
-        let op = rng.weighted(&[w_begin, if have { 14 } else { 0 }, if have { 4 } else { 0 }, if have { 3 } else { 0 }, 1, 1, if have { 1 } else { 0 }, 2]);
+        let drawn = rng.weighted(&[w_begin, if have { 14 } else { 0 }, if have { 4 } else { 0 }, if have { 3 } else { 0 }, 1, 1, if have { 1 } else { 0 }, 2]);
+        let op = force.take().unwrap_or(drawn);
         match op {
             0 => {
                 let mut shards = vec![0usize, 1, 2];
@@ -862,19 +1052,32 @@ fn workload(coord: &DistributedTxCoordinator, ch: &mut Chain, rng: &mut Rng, epo
                 } else {
                     *rng.pick(&parts)
                 };
-                let vote = gen_vote(coord, tx, shard, rng, rep);
+                let mut vote = gen_vote(coord, tx, shard, rng, rep);
+                // more collections that end in Prepared (everything past vote collection starts there)
+                if !matches!(vote, PrepareVote::Yes { .. }) && xr.chance(1, 3) {
+                    vote = PrepareVote::Yes { lock_handle: 2_000_000 + xr.below(1_000_000) as u64, delta: DeltaVector::zero(DIM) };
+                    rep.count("op:no-vote-turned-into-yes", 1);
+                }
                 let at = file_len(&ch.path);
                 let res = coord.record_vote(tx, shard, vote);
                 if file_len(&ch.path) > at {
                     ch.vote_accept.insert(at, res.is_ok());
+                }
+                if matches!(res, Ok(Some(TxPhase::Prepared))) {
+                    prepared_live.insert(tx);
+                    rep.count("live_tx_prepared", 1);
+                    // sometimes a recovery call meets the freshly prepared transaction
+                    if xr.chance(1, 4) {
+                        force = Some(7);
+                    }
                 }
                 rep.count(if res.is_ok() { "op:vote-accepted" } else { "op:vote-rejected" }, 1);
             }
             2 | 3 | 6 => {
                 let i = rng.below(ch.txs.len());
                 let tx = ch.txs[i].id;
-                let before_crash = known.get(&tx).and_then(|t| t.outcome);
-                let logged = before_crash.or_else(|| live_done.get(&tx).copied());
+                let before_crash = known_done(tx);
+                let logged: Option<TxOutcome> = before_crash.as_ref().map(|b| b.0).or_else(|| live_done.get(&tx).map(|d| d.0));
                 let (name, ok) = match op {
                     2 => ("commit", coord.commit(tx).is_ok()),
                     3 => ("abort", coord.abort(tx, "client").is_ok()),
@@ -894,30 +1097,56 @@ fn workload(coord: &DistributedTxCoordinator, ch: &mut Chain, rng: &mut Rng, epo
                         _ => None,
                     };
                     if let Some(r) = reversed {
+                        let (wording, sfx) = match (&before_crash, live_done.get(&tx)) {
+                            (Some((_, was, sfx)), _) => (format!("{} (before the crash)", was), sfx.clone()),
+                            (None, Some((o, how))) => (format!("was completed as {:?} by this coordinator ({} returned it)", o, how), if *how == "cleanup_timeouts()" { ":timed-out-on-this-coordinator".to_string() } else { String::new() }),
+                            _ => (String::new(), String::new()),
+                        };
                         out.push(Found {
-                            sig: format!("{}:{}-accepted", r, name),
-                            detail: format!(
-                                "{} was logged {:?} {}; {}() succeeded later on the same coordinator",
-                                ch.names.n(tx), logged.unwrap(), if before_crash.is_some() { "before the crash" } else { "by this coordinator" }, name
-                            ),
+                            sig: format!("{}:{}-accepted{}", r, name, sfx),
+                            detail: format!("{} {}; {}() succeeded later on the same coordinator", ch.names.n(tx), wording, name),
                         });
-                    } else if logged.is_none() && (name == "commit" || name == "abort") {
-                        live_done.insert(tx, if name == "commit" { TxOutcome::Committed } else { TxOutcome::Aborted });
+                    } else if logged.is_none() && (name == "commit" || name == "abort" || judge_complete_calls()) {
+                        // an outcome the coordinator announced: from here on it precedes every crash
+                        let (o, how) = match name {
+                            "commit" => (TxOutcome::Committed, "commit()"),
+                            "abort" => (TxOutcome::Aborted, "abort()"),
+                            "complete_commit" => (TxOutcome::Committed, "complete_commit()"),
+                            _ => (TxOutcome::Aborted, "complete_abort()"),
+                        };
+                        live_done.insert(tx, (o, how));
+                        ch.acks.push(Ack { tx, outcome: o, how, len: file_len(&ch.path) });
+                        rep.count(&format!("announced:{}", how), 1);
                     }
                 }
             }
             4 => {
                 // timeout sweep: with prepare_timeout_ms = 0 every transaction begun at least 1 ms ago is due
                 std::thread::sleep(Duration::from_micros(1100));
+                // in-memory phases before the sweep (recover() changes phases without logging)
+                let mem_phase: HashMap<u64, TxPhase> = ch.txs.iter().filter_map(|t| coord.get(t.id).map(|c| (t.id, c.phase))).collect();
                 let swept = coord.cleanup_timeouts();
                 rep.count("op:timeout-sweep", 1);
                 rep.count("timed_out", swept.len() as u64);
+                let len_now = file_len(&ch.path);
                 for tx in swept {
-                    if let Some(o) = known.get(&tx).and_then(|t| t.outcome).or_else(|| live_done.get(&tx).copied()) {
+                    if let Some((o, was, sfx)) = known_done(tx).or_else(|| live_done.get(&tx).map(|(o, how)| (*o, format!("was completed as {:?} by this coordinator ({} returned it)", o, how), String::new()))) {
                         out.push(Found {
-                            sig: format!("logged-outcome-reversed:timed-out-after-{:?}", o),
-                            detail: format!("{} was logged {:?} earlier; cleanup_timeouts() returned it", ch.names.n(tx), o),
+                            sig: format!("logged-outcome-reversed:timed-out-after-{:?}{}", o, sfx),
+                            detail: format!("{} {} earlier; cleanup_timeouts() returned it", ch.names.n(tx), was),
                         });
+                    } else {
+                        // a reported timeout is an abort the coordinator announces (the ABORT broadcast
+                        // is queued): from here on it precedes every crash
+                        live_done.insert(tx, (TxOutcome::Aborted, "cleanup_timeouts()"));
+                        ch.acks.push(Ack { tx, outcome: TxOutcome::Aborted, how: "cleanup_timeouts()", len: len_now });
+                        rep.count("announced:cleanup_timeouts()", 1);
+                        match mem_phase.get(&tx) {
+                            Some(TxPhase::Aborting) if prepared_live.contains(&tx) => rep.count("announced:timeout-of-tx-logged-Prepared-and-Aborting-in-memory", 1),
+                            Some(TxPhase::Aborting) => rep.count("announced:timeout-of-tx-Aborting-in-memory", 1),
+                            Some(TxPhase::Prepared) => rep.count("announced:timeout-of-tx-Prepared-in-memory", 1),
+                            _ => {}
+                        }
                     }
                 }
             }
@@ -949,19 +1178,38 @@ fn workload(coord: &DistributedTxCoordinator, ch: &mut Chain, rng: &mut Rng, epo
                     }
                 }
                 if which != 0 {
+                    // recover() judges deadlines: sometimes make sure that every transaction of
+                    // this coordinator (deadline 0 ms) is past it, as before a sweep
+                    if xr.chance(1, 2) {
+                        std::thread::sleep(Duration::from_micros(1100));
+                    }
                     let _ = coord.get_pending_decisions();
+                    let before: Vec<(u64, TxPhase)> = ch.txs.iter().filter_map(|t| coord.get(t.id).map(|c| (t.id, c.phase))).collect();
                     let _ = coord.recover();
                     rep.count("op:recover", 1);
+                    // phases recover() changed in memory; none of these changes is in the log
+                    let changed = before.iter().filter(|(id, ph)| coord.get(*id).map(|c| c.phase != *ph).unwrap_or(false)).count();
+                    rep.count("live_phase_changes_by_recover()", changed as u64);
+                    // the sweeper (or a client call) then decides from phases the log never saw
+                    if changed > 0 && xr.chance(1, 2) {
+                        force = Some(if xr.chance(3, 4) { 4 } else { 2 + xr.below(2) });
+                    }
                 }
                 rep.count("live_lock_holders_across_recovery_calls", holding.len() as u64);
                 // a logged completion stays final across the call
-                let completed: Vec<(u64, TxOutcome)> = known.iter().filter_map(|(t, l)| l.outcome.map(|o| (*t, o))).chain(live_done.iter().map(|(t, o)| (*t, *o))).collect();
+                let completed: Vec<(u64, TxOutcome, String, String)> = known
+                    .iter()
+                    .filter_map(|(t, l)| l.done().map(|o| (*t, o, l.was(), l.sfx())))
+                    .chain(live_done.iter().map(|(t, (o, how))| {
+                        (*t, *o, format!("was completed as {:?} by this coordinator ({} returned it)", o, how), if *how == "cleanup_timeouts()" { ":timed-out-on-this-coordinator".to_string() } else { String::new() })
+                    }))
+                    .collect();
                 rep.count("checked:completed-across-later-recovery-call", completed.len() as u64);
-                for (tx, o) in completed {
+                for (tx, o, was, sfx) in completed {
                     if let Some(cur) = coord.get(tx) {
                         out.push(Found {
-                            sig: format!("completed-tx-pending-again:{:?}-as-{:?}:after-later-recovery-call", o, cur.phase),
-                            detail: format!("{} was logged {:?}; after {}() on the running coordinator it is pending again in phase {:?}", ch.names.n(tx), o, name, cur.phase),
+                            sig: format!("completed-tx-pending-again:{:?}-as-{:?}:after-later-recovery-call{}", o, cur.phase, sfx),
+                            detail: format!("{} {}; after {}() on the running coordinator it is pending again in phase {:?}", ch.names.n(tx), was, name, cur.phase),
                         });
                     }
                 }
@@ -1037,6 +1285,7 @@ fn run_case(args: &Args, case_seed: u64, rep: &mut Report) {
         last_bytes: Vec::new(),
         cur_seg: None,
         rewritten_this_epoch: false,
+        acks: Vec::new(),
     };
     let crashes = 1 + rng.below(3);
     let cap = args.by_tier(700usize, 4000usize);
@@ -1066,14 +1315,28 @@ fn run_case(args: &Args, case_seed: u64, rep: &mut Report) {
         if epoch > 0 {
             let bytes = std::fs::read(&ch.path).unwrap_or_default();
             let (recs, garbage) = logical_log(&bytes, bytes.len(), &ch.seg_starts);
-            let Some(model) = build_model(&ch.removed, &recs, &ch.vote_accept) else {
+            let Some(mut model) = build_model(&ch.removed, &recs, &ch.vote_accept, &ch.acks, bytes.len()) else {
                 rep.inconclusive("harness lost track of a logged vote");
                 return;
             };
             let mut found = Vec::new();
             let script_seed = rng.next_u64();
             let mut srng = Rng::new(script_seed);
-            let ok = recovery_script(&coord, &model, &ch.names, &recs, &ch.removed_tx(), &mut srng, &mut found, rep);
+            // in a few restarts the 5 s deadline of restored transactions is allowed to pass
+            let late = hash_combine(case_seed, 0x1A7E + epoch as u64) % args.by_tier(40u64, 200u64) == 0;
+            let mut announced = Vec::new();
+            let ok = recovery_script(&coord, &model, &ch.names, &recs, &ch.removed_tx(), &mut srng, &mut found, rep, late, &mut announced);
+            // what this coordinator announced during the script precedes every crash from here on
+            let len_now = file_len(&ch.path);
+            for (tx, outcome, how) in announced {
+                rep.count(&format!("announced-after-restart:{}", how), 1);
+                ch.acks.push(Ack { tx, outcome, how, len: len_now });
+                if let Some(t) = model.get_mut(&tx) {
+                    if t.acked.is_none() {
+                        t.acked = Some((outcome, how));
+                    }
+                }
+            }
             let log = describe_all(&ch.removed, &recs, &ch.names, &ch.vote_accept);
             rep.eval(hash_combine(hash_str(&log), 0xC4A1), is_nontrivial(&model));
             rep.count("chain_restarts", 1);
@@ -1082,7 +1345,7 @@ fn run_case(args: &Args, case_seed: u64, rep: &mut Report) {
                 rep.count("restarts_with_unrepaired_torn_tail", 1);
             }
             let indep = if garbage && !found.is_empty() {
-                independent_sigs(&ch.img, &pre_bytes, &ch.seg_starts, &ch.vote_accept, &ch.names, script_seed)
+                independent_sigs(&ch.img, &pre_bytes, &ch.seg_starts, &ch.vote_accept, &ch.acks, &ch.names, script_seed)
             } else {
                 Vec::new()
             };
@@ -1101,7 +1364,7 @@ fn run_case(args: &Args, case_seed: u64, rep: &mut Report) {
         // ---------------- live epoch
         let mut found = Vec::new();
         let mut wrng = rng.fork(100 + epoch as u64);
-        workload(&coord, &mut ch, &mut wrng, epoch, &known, &mut found, rep);
+        workload(&coord, &mut ch, &mut wrng, hash_combine(case_seed, 0xE0 + epoch as u64), epoch, &known, &mut found, rep);
         drop(coord);
         let bytes = std::fs::read(&ch.path).unwrap_or_default();
         let total = bytes.len();
@@ -1147,7 +1410,7 @@ fn run_case(args: &Args, case_seed: u64, rep: &mut Report) {
         let points = crash_points(&epoch_recs, lo, total, cap, &mut rng);
         for &b in &points {
             let (recs, garbage) = logical_log(&bytes, b, &ch.seg_starts);
-            let Some(model) = build_model(&ch.removed, &recs, &ch.vote_accept) else {
+            let Some(model) = build_model(&ch.removed, &recs, &ch.vote_accept, &ch.acks, b) else {
                 rep.inconclusive("harness lost track of a logged vote");
                 continue;
             };
@@ -1165,7 +1428,7 @@ fn run_case(args: &Args, case_seed: u64, rep: &mut Report) {
             let log = describe_all(&ch.removed, &recs, &ch.names, &ch.vote_accept);
             rep.eval(hash_combine(hash_str(&log), b as u64 - recs.last().map(|r| r.end).unwrap_or(0) as u64), is_nontrivial(&model));
             if !found.is_empty() {
-                let indep = if garbage { independent_sigs(&ch.img, &bytes[..b], &ch.seg_starts, &ch.vote_accept, &ch.names, seed) } else { Vec::new() };
+                let indep = if garbage { independent_sigs(&ch.img, &bytes[..b], &ch.seg_starts, &ch.vote_accept, &ch.acks, &ch.names, seed) } else { Vec::new() };
                 let found: Vec<Found> = found.into_iter().map(|f| classify(garbage, &indep, f)).collect();
                 report(found, rep, case_seed, epoch, b, "image", &log);
             }
@@ -1204,6 +1467,8 @@ fn run_case(args: &Args, case_seed: u64, rep: &mut Report) {
             ch.seg_starts.pop();
         }
         ch.vote_accept.retain(|&off, _| off < b || off >= REMOVED_BASE);
+        // the crash came before whatever was announced with a longer log
+        ch.acks.retain(|a| a.len <= b);
     }
 }
 
@@ -1284,6 +1549,27 @@ fn witness(args: &Args) {
         let r = c.recover();
         println!("recover() -> pending_commit {} pending_abort {}; phase now {:?}", r.pending_commit, r.pending_abort, c.get(t0).map(|t| t.phase));
     }
+    {
+        // not judged by the check (complete_abort logs nothing, so no *logged* completion exists);
+        // shown because the consequence equals the one of an unlogged timeout
+        let dir = args.scratch_dir("c13w");
+        let path = dir.join("tx.wal");
+        println!("--- recover() times a prepared transaction out in memory, complete_abort() finishes it, nothing is logged");
+        let t0;
+        {
+            let c = new_coordinator(TxWal::open(&path).unwrap()); // deadline 0 ms
+            t0 = c.begin(&who, &[0, 1]).unwrap().tx_id;
+            println!("epoch 0: votes -> {:?} {:?}", c.record_vote(t0, 0, yes(11)), c.record_vote(t0, 1, yes(12)));
+            std::thread::sleep(Duration::from_millis(3));
+            let r = c.recover();
+            println!("epoch 0: recover() -> timed_out {}; get_pending_decisions -> {:?}", r.timed_out, c.get_pending_decisions().iter().map(|(_, p)| *p).collect::<Vec<_>>());
+            println!("epoch 0: (ABORT broadcast) complete_abort(t0) -> {:?}; log is {} bytes", c.complete_abort(t0), file_len(&path));
+        }
+        let c = new_coordinator(TxWal::open(&path).unwrap());
+        println!("epoch 1: recover_from_wal -> {:?}; t0 is {:?}", c.recover_from_wal().map(|s| s.pending_prepare).map_err(|e| e.to_string()), c.get(t0).map(|t| t.phase));
+        let r = c.recover();
+        println!("epoch 1: recover() -> pending_commit {}; get_pending_decisions -> {:?}; complete_commit(t0) -> {:?}", r.pending_commit, c.get_pending_decisions().iter().map(|(_, p)| *p).collect::<Vec<_>>(), c.complete_commit(t0));
+    }
 }
 
 /// `c13 child-ack <dir> <seed> <mode>`: run under strace by the syscall-order leg. Every call that
@@ -1356,6 +1642,7 @@ fn main() {
         return;
     }
     let started = Instant::now();
+    JUDGE_COMPLETE_CALLS.store(args.extra_u64("judge-complete-calls", 0) != 0, std::sync::atomic::Ordering::Relaxed);
     quiet_panics();
     let mut total = Report::new();
     total.max_samples = 6;
@@ -1374,11 +1661,13 @@ fn main() {
 
     let meta = Meta {
         property: "C13",
-        rule: "one evaluation = one restart of the real coordinator from a log cut at one byte (every byte length of what each crashed epoch wrote, on a copy; plus the restarts of the chain itself, which continue with new transactions and up to two more crashes). Distinct by the hash of the durable record sequence (transaction indices, not ids) and the offset of the cut inside the torn record; non-trivial if the durable prefix holds at least one transaction that is past vote collection (prepared / committing / aborting / completed), i.e. there is something to preserve.",
+        rule: "one evaluation = one restart of the real coordinator from a log cut at one byte (every byte length of what each crashed epoch wrote, on a copy; plus the restarts of the chain itself, which continue with new transactions and up to two more crashes). The obligations of a restart come from the harness's own decoding of the durable prefix, from the coordinator's answers to the votes (collected = a vote of every participant accepted) and from the outcomes the coordinator announced before the crash point (commit/abort Ok, timeouts reported by the sweeper). Distinct by the hash of the durable record sequence (transaction indices, not ids) and the offset of the cut inside the torn record; non-trivial if the durable prefix holds at least one transaction that is past vote collection (prepared / committing / aborting / completed), i.e. there is something to preserve.",
         assumptions: vec![
             "a crash is a process crash: the file is a prefix of what was written; every append is fsynced before the call returns, so each record boundary is an acknowledgement point".into(),
             "a vote counts as collected iff the live coordinator accepted it (record_vote returned Ok); the coordinator logs votes before validating them, so the log also holds rejected votes".into(),
-            "timeouts of restored transactions (fresh start time, 5 s) never fire within a case; completion through complete_commit/complete_abort is not logged by the code and therefore creates no obligation".into(),
+            "timeouts of restored transactions (fresh start time, 5 s) fire only in the few chain restarts in which the harness waits 5.1 s on purpose (a case that is descheduled for 5 s elsewhere merely sees such a timeout earlier; the sweeper's report is taken as it comes, no verdict depends on the clock); completion through complete_commit/complete_abort is not logged by the code and therefore creates no obligation".into(),
+            "a completion exists from the moment the coordinator announces it (commit()/abort() return Ok, cleanup_timeouts() returns the transaction and queues its ABORT broadcast); the code's contract is log-before-announce (every append is fsynced before it returns), so every crash at or behind the log length observed right after the announcing call is a crash after a logged completion. The harness does not require a particular record, it only treats the transaction as completed when judging the restart".into(),
+            "a transaction has collected all votes iff the live coordinator accepted a vote of every shard in its participant list (TxBegin record); accepted votes of other shards are restored like any accepted vote but never complete a collection".into(),
             "recovery calls are also issued on the running coordinator between further transactions: a transaction that was pending and held coordinator key locks before such a call may be kept or forgotten by it, but if it is forgotten its locks must be gone (only recovery calls are judged this way; late PREPAREs and the timeout sweeper can leave locks of unknown handles behind, which is C12's subject)".into(),
             "a completed transaction found among the pending ones after restart is reported, because the timeout sweeper would abort it 5 s later; the harness does not wait for that".into(),
             "violations observed on a log that contains a torn record followed by appended records are attributed to that defect (signature torn-tail-then-append:*) unless the same signature also arises when the restart is judged against the log cut at the torn record (what a reader that cannot skip it sees)".into(),
@@ -1404,6 +1693,19 @@ fn main() {
                 ("checked:unreleased-locks-after-commit", 200),
                 ("checked:unreleased-locks-after-abort", 2_000),
                 ("checked:completed-after-restart-across-later-recovery-call", 500),
+                // outcomes the live coordinator announced, judged after crashes behind the announcement
+                ("announced:commit()", 40),
+                ("announced:abort()", 400),
+                ("announced:cleanup_timeouts()", 300),
+                ("checked:announced-outcome-after-crash", 100_000),
+                ("checked:announced-outcome-after-crash:cleanup_timeouts()", 30_000),
+                ("checked:announced-outcome-of-tx-logged-Prepared", 10_000),
+                ("live_phase_changes_by_recover()", 200),
+                ("announced:timeout-of-tx-logged-Prepared-and-Aborting-in-memory", FLOOR_UNLOGGED_PHASE),
+                // collections that a vote of a non-participant would have completed by count
+                ("checked:collecting-with-as-many-yes-votes-as-participants", 2_000),
+                // restored transactions really timed out by the sweeper (5.1 s waits)
+                ("restored_tx_timed_out_after_restart", 1),
             ]
         },
         exhaustive: false,
